@@ -518,14 +518,31 @@ where
     let case: C = serde_json::from_value(doc["case"].clone())
         .unwrap_or_else(|e| machinery_fail(&format!("replay case does not deserialise: {}", e)));
     let idx = doc["index"].as_u64().unwrap_or(0);
-    let mut obs: Vec<Vec<(String, String)>> = vec![];
-    for _ in 0..2 {
+    // Each of the two runs happens in a FRESH child process of this binary, so that a defect which depends
+    // on process-wide state (a cache, a reused buffer) is replayed from the same initial state both times.
+    if std::env::var("VERIF_REPLAY_SINGLE").is_ok() {
         let mut acc = Acc::new();
         let r = guarded(|| f(&case, idx, &mut acc));
         if let Err(msg) = r {
             acc.violate("panic", idx, Value::Null, json!("no panic"), json!(msg));
         }
-        obs.push(acc.violations.iter().map(|v| (v.key.clone(), v.observed.to_string())).collect());
+        let o: Vec<(String, String)> = acc.violations.iter().map(|v| (v.key.clone(), v.observed.to_string())).collect();
+        println!("REPLAY-OBSERVATION {}", serde_json::to_string(&o).unwrap());
+        std::process::exit(0);
+    }
+    let exe = std::env::current_exe().unwrap_or_else(|e| machinery_fail(&format!("current_exe: {}", e)));
+    let mut obs: Vec<Vec<(String, String)>> = vec![];
+    for _ in 0..2 {
+        let out = std::process::Command::new(&exe)
+            .args(std::env::args().skip(1))
+            .env("VERIF_REPLAY_SINGLE", "1")
+            .output()
+            .unwrap_or_else(|e| machinery_fail(&format!("cannot spawn replay child: {}", e)));
+        let txt = String::from_utf8_lossy(&out.stdout).to_string();
+        match txt.lines().find_map(|l| l.strip_prefix("REPLAY-OBSERVATION ")) {
+            Some(j) => obs.push(serde_json::from_str(j).unwrap_or_default()),
+            None => obs.push(vec![("abnormal-exit".to_string(), format!("child exited with {:?} without an observation", out.status))]),
+        }
     }
     println!("replay run 1: {:?}", obs[0]);
     println!("replay run 2: {:?}", obs[1]);
